@@ -370,3 +370,421 @@ def show_shape(v):
     if v[0] == "arr":
         return "(" + ", ".join(show_dim(d) for d in v[1]) + ")"
     return v[0]
+
+
+# --------------------------------------------------------------------------------------------
+# concrete-configuration shape interpreter (dims are ints or the generic symbol "N")
+# --------------------------------------------------------------------------------------------
+class Conflict(Exception):
+    pass
+
+
+class CShapes:
+    """Abstract interpreter over array shapes for one concrete configuration.
+
+    Values: ("arr", dims) | ("scalar",) | ("none",) | ("shape", dims) (a Python tuple of ints,
+    e.g. x.shape) | ("int", n) | ("bool", b) | ("tuple", [values]) | ("unknown",).
+    dims are ints or "N" (a generic size >= 2).  Guards whose value is known in the configuration
+    are folded; `raise` ends a path ("rejected")."""
+
+    def __init__(self, env, where):
+        self.env = dict(env)
+        self.problems = []   # (kind, text, node)
+        self.rejected = None
+        self.where = where
+        self.fields = {}
+
+    # -------------------------------------------------------------- helpers
+    @staticmethod
+    def bdim(x, y):
+        if x == 1:
+            return y
+        if y == 1 or x == y:
+            return x
+        raise Conflict(f"{x} vs {y}")
+
+    def bcast(self, a, b, node):
+        if a[0] != "arr" and b[0] != "arr":
+            if "unknown" in (a[0], b[0]):
+                return UNKNOWN
+            return SCALAR
+        if a[0] in ("scalar", "int"):
+            return b
+        if b[0] in ("scalar", "int"):
+            return a
+        if a[0] != "arr" or b[0] != "arr":
+            return UNKNOWN
+        da, db = list(a[1]), list(b[1])
+        n = max(len(da), len(db))
+        da = [1] * (n - len(da)) + da
+        db = [1] * (n - len(db)) + db
+        try:
+            return ("arr", tuple(self.bdim(x, y) for x, y in zip(da, db)))
+        except Conflict:
+            self.problems.append(("broadcast", f"`{norm(node)[:70]}`: operands of shape {tuple(a[1])} and {tuple(b[1])} "
+                                               f"cannot be broadcast", node))
+            return UNKNOWN
+
+    def truth(self, v):
+        if v[0] == "bool":
+            return v[1]
+        if v[0] == "int":
+            return v[1] != 0
+        if v[0] == "none":
+            return False
+        return None
+
+    # -------------------------------------------------------------- expressions
+    def ev(self, e):
+        if isinstance(e, ast.Constant):
+            if e.value is None:
+                return ("none",)
+            if isinstance(e.value, bool):
+                return ("bool", e.value)
+            if isinstance(e.value, int):
+                return ("int", e.value)
+            if isinstance(e.value, float):
+                return SCALAR
+            return UNKNOWN
+        if isinstance(e, ast.Name):
+            return self.env.get(e.id, UNKNOWN)
+        if isinstance(e, ast.Attribute):
+            if norm(e).startswith("self."):
+                return self.fields.get(e.attr, self.env.get(norm(e), UNKNOWN))
+            v = self.ev(e.value)
+            if v[0] == "arr":
+                if e.attr == "shape":
+                    return ("shape", tuple(v[1]))
+                if e.attr == "ndim":
+                    return ("int", len(v[1]))
+                if e.attr == "size":
+                    p = 1
+                    for d in v[1]:
+                        if d == 0:
+                            return ("int", 0)
+                        p = p * d if isinstance(d, int) and isinstance(p, int) else "N"
+                    return ("int", p) if isinstance(p, int) else SCALAR
+                if e.attr == "T":
+                    return ("arr", tuple(reversed(v[1])))
+                if e.attr == "dtype":
+                    return UNKNOWN
+            return UNKNOWN
+        if isinstance(e, ast.Tuple):
+            vals = [self.ev(x) for x in e.elts]
+            if all(v[0] == "int" for v in vals):
+                return ("shape", tuple(v[1] for v in vals))
+            return ("tuple", vals)
+        if isinstance(e, ast.List):
+            return ("list", [self.ev(x) for x in e.elts])
+        if isinstance(e, ast.UnaryOp):
+            v = self.ev(e.operand)
+            if isinstance(e.op, ast.Not):
+                t = self.truth(v)
+                return ("bool", not t) if t is not None else UNKNOWN
+            if isinstance(e.op, ast.USub) and v[0] == "int":
+                return ("int", -v[1])
+            return v
+        if isinstance(e, ast.BinOp):
+            a, b = self.ev(e.left), self.ev(e.right)
+            if a[0] == "shape" and b[0] == "shape" and isinstance(e.op, ast.Add):
+                return ("shape", a[1] + b[1])
+            if a[0] == "int" and b[0] == "int" and isinstance(e.op, (ast.Add, ast.Sub, ast.Mult)):
+                return ("int", {ast.Add: a[1] + b[1], ast.Sub: a[1] - b[1], ast.Mult: a[1] * b[1]}[type(e.op)])
+            if isinstance(e.op, ast.MatMult):
+                return self.matmul(a, b, e)
+            return self.bcast(a, b, e)
+        if isinstance(e, ast.Compare) and len(e.ops) == 1:
+            a, b = self.ev(e.left), self.ev(e.comparators[0])
+            op = type(e.ops[0])
+            if op in (ast.Is, ast.IsNot):
+                if b[0] == "none" and a[0] != "unknown":
+                    r = a[0] == "none"
+                    return ("bool", r if op is ast.Is else not r)
+                return UNKNOWN
+            if a[0] in ("int", "shape") and a[0] == b[0]:
+                x, y = a[1], b[1]
+                if any(isinstance(d, str) for d in (list(x) if isinstance(x, tuple) else [x]) +
+                       (list(y) if isinstance(y, tuple) else [y])) and x != y:
+                    return UNKNOWN
+                try:
+                    return ("bool", {ast.Eq: x == y, ast.NotEq: x != y, ast.Lt: x < y, ast.LtE: x <= y,
+                                     ast.Gt: x > y, ast.GtE: x >= y}[op])
+                except (KeyError, TypeError):
+                    return UNKNOWN
+            if a[0] == "arr" or b[0] == "arr":
+                return self.bcast(a, b, e)
+            return UNKNOWN
+        if isinstance(e, ast.BoolOp):
+            vals = [self.truth(self.ev(v)) for v in e.values]
+            if isinstance(e.op, ast.And):
+                if any(v is False for v in vals):
+                    return ("bool", False)
+                return ("bool", True) if all(v is True for v in vals) else UNKNOWN
+            if any(v is True for v in vals):
+                return ("bool", True)
+            return ("bool", False) if all(v is False for v in vals) else UNKNOWN
+        if isinstance(e, ast.IfExp):
+            t = self.truth(self.ev(e.test))
+            if t is True:
+                return self.ev(e.body)
+            if t is False:
+                return self.ev(e.orelse)
+            return UNKNOWN
+        if isinstance(e, ast.Subscript):
+            return self.subscript(e)
+        if isinstance(e, ast.Call):
+            return self.call(e)
+        return UNKNOWN
+
+    def matmul(self, a, b, node):
+        if a[0] != "arr" or b[0] != "arr":
+            return UNKNOWN
+        da, db = a[1], b[1]
+        if not da or not db:
+            return UNKNOWN
+        inner_a = da[-1]
+        inner_b = db[0] if len(db) == 1 else db[-2]
+        if inner_a != inner_b:
+            self.problems.append(("matmul", f"`{norm(node)[:70]}`: inner dimensions {inner_a} and {inner_b} differ "
+                                            f"(shapes {tuple(da)} @ {tuple(db)})", node))
+            return UNKNOWN
+        out = tuple(da[:-1]) + (tuple(db[1:]) if len(db) == 1 else tuple(db[:-2]) + (db[-1],))
+        return ("arr", out) if out else SCALAR
+
+    def subscript(self, e):
+        v = self.ev(e.value)
+        sl = e.slice
+        if v[0] == "shape":
+            if isinstance(sl, ast.Slice):
+                lo = self.ev(sl.lower)[1] if sl.lower is not None and self.ev(sl.lower)[0] == "int" else None
+                hi = self.ev(sl.upper)[1] if sl.upper is not None and self.ev(sl.upper)[0] == "int" else None
+                return ("shape", v[1][lo:hi])
+            i = self.ev(sl)
+            if i[0] == "int":
+                try:
+                    d = v[1][i[1]]
+                except IndexError:
+                    self.problems.append(("index", f"`{norm(e)}`: shape tuple {v[1]} has no entry {i[1]}", e))
+                    return UNKNOWN
+                return ("int", d) if isinstance(d, int) else SCALAR
+            return UNKNOWN
+        if v[0] != "arr":
+            return UNKNOWN
+        idx = list(sl.elts) if isinstance(sl, ast.Tuple) else [sl]
+        dims = list(v[1])
+        out = []
+        pos = 0
+        for i in idx:
+            if isinstance(i, ast.Constant) and i.value is None:
+                out.append(1)
+            elif isinstance(i, ast.Slice):
+                if pos >= len(dims):
+                    self.problems.append(("index", f"`{norm(e)[:60]}`: too many indices for shape {tuple(dims)}", e))
+                    return UNKNOWN
+                out.append(dims[pos] if (i.lower is None and i.upper is None) else "N")
+                pos += 1
+            else:
+                iv = self.ev(i)
+                if iv[0] == "int" or iv == SCALAR:
+                    if pos >= len(dims):
+                        self.problems.append(("index", f"`{norm(e)[:60]}`: too many indices for shape {tuple(dims)}", e))
+                        return UNKNOWN
+                    if iv[0] == "int" and isinstance(dims[pos], int) and not (-dims[pos] <= iv[1] < dims[pos]):
+                        self.problems.append(("index", f"`{norm(e)[:60]}`: index {iv[1]} out of range for axis of "
+                                                       f"length {dims[pos]}", e))
+                    pos += 1
+                elif iv[0] == "arr":
+                    out.extend(iv[1])
+                    pos += 1
+                else:
+                    return UNKNOWN
+        out += dims[pos:]
+        return ("arr", tuple(out)) if out else SCALAR
+
+    def call(self, e):
+        fn = norm(e.func)
+        args = [self.ev(a) for a in e.args]
+        kw = {k.arg: k.value for k in e.keywords}
+        if fn in ("np.zeros", "np.ones", "np.empty") and args:
+            a = args[0]
+            if a[0] == "shape":
+                return ("arr", tuple(a[1]))
+            if a[0] == "int":
+                return ("arr", (a[1],))
+            if a[0] == "tuple":
+                dims = []
+                for x in a[1]:
+                    dims.append(x[1] if x[0] == "int" else "N")
+                return ("arr", tuple(dims))
+            return UNKNOWN
+        if fn in ("np.abs", "np.floor", "np.ceil", "np.sqrt", "np.exp", "np.asarray", "np.array", "np.ravel_keep") and args and args[0][0] == "arr":
+            return args[0]
+        if fn == "np.array" and args and args[0][0] == "list":
+            items = args[0][1]
+            if not items:
+                return ("arr", (0,))
+            first = items[0]
+            if first[0] == "list":
+                inner = first[1]
+                return ("arr", (len(items), len(inner)))
+            if first[0] == "arr":
+                return ("arr", (len(items),) + tuple(first[1]))
+            return ("arr", (len(items),))
+        if fn == "np.linalg.norm" and args and args[0][0] == "arr":
+            ax = kw.get("axis")
+            if ax is None:
+                return SCALAR
+            a = self.ev(ax)
+            dims = list(args[0][1])
+            if a[0] == "int":
+                if not (-len(dims) <= a[1] < len(dims)):
+                    self.problems.append(("axis", f"`{norm(e)[:70]}`: axis {a[1]} out of bounds for an array of shape "
+                                                  f"{tuple(dims)}", e))
+                    return UNKNOWN
+                del dims[a[1]]
+                return ("arr", tuple(dims)) if dims else SCALAR
+            return UNKNOWN
+        if fn == "np.linalg.svd" and args and args[0][0] == "arr" and len(args[0][1]) == 2:
+            k, d = args[0][1]
+            m = min(k, d) if isinstance(k, int) and isinstance(d, int) else "N"
+            return ("tuple", [("arr", (k, m)), ("arr", (m,)), ("arr", (m, d))])
+        if fn == "np.einsum" and e.args and isinstance(e.args[0], ast.Constant):
+            spec = e.args[0].value.replace(" ", "")
+            ins = spec.split("->")[0].split(",")
+            ops = args[1:]
+            letters = {}
+            for s_, v in zip(ins, ops):
+                if v[0] != "arr" or len(s_) != len(v[1]):
+                    if v[0] == "arr":
+                        self.problems.append(("einsum", f"`{spec}`: operand '{s_}' has shape {tuple(v[1])}", e))
+                    return UNKNOWN
+                for ch, d in zip(s_, v[1]):
+                    if ch in letters and letters[ch] != d:
+                        self.problems.append(("einsum", f"`{spec}`: index '{ch}' has sizes {letters[ch]} and {d}", e))
+                    letters.setdefault(ch, d)
+            if "->" in spec:
+                out = spec.split("->")[1]
+            else:
+                allc = "".join(ins)
+                out = "".join(sorted(c for c in set(allc) if allc.count(c) == 1))
+            return ("arr", tuple(letters.get(c, "N") for c in out)) if out else SCALAR
+        if isinstance(e.func, ast.Attribute):
+            recv = self.ev(e.func.value)
+            m = e.func.attr
+            if recv[0] == "arr":
+                if m in ("min", "max", "sum", "mean", "all", "any"):
+                    ax = kw.get("axis") or (e.args[0] if e.args else None)
+                    if ax is None:
+                        if m in ("min", "max") and any(d == 0 for d in recv[1]):
+                            self.problems.append(("empty-reduction", f"`{norm(e)[:60]}`: {m}() of an array of shape "
+                                                                    f"{tuple(recv[1])} (zero-size) raises ValueError", e))
+                        return SCALAR
+                    a = self.ev(ax)
+                    dims = list(recv[1])
+                    if a[0] == "int" and -len(dims) <= a[1] < len(dims):
+                        if m in ("min", "max") and dims[a[1]] == 0:
+                            self.problems.append(("empty-reduction", f"`{norm(e)[:60]}`: {m} along an axis of length 0", e))
+                        del dims[a[1]]
+                        return ("arr", tuple(dims)) if dims else SCALAR
+                    return UNKNOWN
+                if m in ("copy", "astype", "clip"):
+                    return recv
+                if m == "reshape":
+                    return UNKNOWN
+        if fn == "len" and args:
+            if args[0][0] == "arr" and args[0][1]:
+                d = args[0][1][0]
+                return ("int", d) if isinstance(d, int) else SCALAR
+            if args[0][0] == "shape":
+                return ("int", len(args[0][1]))
+        if fn in ("max", "min") and args and args[0][0] == "shape" and all(isinstance(d, int) for d in args[0][1]):
+            return ("int", (max if fn == "max" else min)(args[0][1]))
+        if fn in ("abs", "float", "int"):
+            return SCALAR
+        if fn in ("np.prod", "np.sum") and args and args[0][0] == "arr":
+            ax = kw.get("axis")
+            if ax is None:
+                return SCALAR
+            a = self.ev(ax)
+            dims = list(args[0][1])
+            if a[0] == "int":
+                if not (-len(dims) <= a[1] < len(dims)):
+                    self.problems.append(("axis", f"`{norm(e)[:70]}`: axis {a[1]} out of bounds for shape {tuple(dims)}", e))
+                    return UNKNOWN
+                del dims[a[1]]
+                return ("arr", tuple(dims)) if dims else SCALAR
+        if fn in self.summaries:
+            return self.summaries[fn](self, e, args, kw)
+        return UNKNOWN
+
+    summaries = {}
+
+    # -------------------------------------------------------------- statements
+    def run(self, body):
+        for s in body:
+            if self.rejected is not None:
+                return
+            self.stmt(s)
+
+    def assign(self, t, v):
+        if isinstance(t, ast.Name):
+            self.env[t.id] = v
+        elif isinstance(t, ast.Attribute) and norm(t).startswith("self."):
+            self.fields[t.attr] = v
+        elif isinstance(t, (ast.Tuple, ast.List)):
+            if v[0] == "tuple" and len(v[1]) == len(t.elts):
+                for x, y in zip(t.elts, v[1]):
+                    self.assign(x, y)
+            elif v[0] == "arr" and v[1] and isinstance(v[1][0], int) and not any(isinstance(x, ast.Starred) for x in t.elts):
+                if v[1][0] != len(t.elts):
+                    self.problems.append(("unpack", f"`{norm(t)} = ...`: an array whose first axis has length {v[1][0]} is "
+                                                    f"unpacked into {len(t.elts)} names (ValueError)", t))
+                for x in t.elts:
+                    self.assign(x, ("arr", tuple(v[1][1:])) if len(v[1]) > 1 else SCALAR)
+            else:
+                for x in t.elts:
+                    self.assign(x, UNKNOWN)
+
+    def stmt(self, s):
+        if isinstance(s, ast.Assign):
+            v = self.ev(s.value)
+            for t in s.targets:
+                self.assign(t, v)
+        elif isinstance(s, ast.AugAssign):
+            v = self.bcast(self.ev(s.target), self.ev(s.value), s)
+            self.assign(s.target, v)
+        elif isinstance(s, ast.If):
+            t = self.truth(self.ev(s.test))
+            if t is True:
+                self.run(s.body)
+            elif t is False:
+                self.run(s.orelse)
+            else:
+                # unknown condition: explore the fall-through of both sides conservatively
+                saved = (dict(self.env), dict(self.fields))
+                self.run(s.body)
+                r1 = self.rejected
+                e1 = (self.env, self.fields)
+                self.rejected = None
+                self.env, self.fields = dict(saved[0]), dict(saved[1])
+                self.run(s.orelse)
+                if self.rejected is not None and r1 is None:
+                    self.rejected = None
+                    self.env, self.fields = e1
+                elif r1 is not None and self.rejected is None:
+                    pass
+                elif r1 is None and self.rejected is None:
+                    for k in set(e1[0]) | set(self.env):
+                        if e1[0].get(k) != self.env.get(k):
+                            self.env[k] = UNKNOWN
+                    for k in set(e1[1]) | set(self.fields):
+                        if e1[1].get(k) != self.fields.get(k):
+                            self.fields[k] = UNKNOWN
+        elif isinstance(s, ast.Raise):
+            self.rejected = s
+        elif isinstance(s, ast.Assert):
+            self.ev(s.test)
+        elif isinstance(s, ast.Expr):
+            self.ev(s.value)
+        elif isinstance(s, ast.Return):
+            self.rejected = self.rejected
